@@ -2,6 +2,8 @@
 //
 //	reset | route <pat> <h|nil> | routef <pat> <h|nil> | unroute <pat> | default <h|nil> | defaultf <h|nil>
 //	mw <name> | serve <path|none> | served <path|none> | match <path>
+//	getroute <pat> | getroutes | seterr <name> | servefail <path|none>
+//	inner <registration op> | mount <pat> <var> | msgnew <path|none> | msgpath <path|none> | msgserve
 //
 // Strings are lower-case hex of their bytes ("-" = empty). `serve` builds a pool.Message whose Uri-Path options
 // re-assemble (Options.Path) to exactly the given path — which therefore must be empty ("none": no option at all) or
@@ -17,6 +19,8 @@ import (
 	"context"
 	"errors"
 	"fmt"
+	"io"
+	"os"
 	"strings"
 
 	"github.com/plgd-dev/go-coap/v3/message"
@@ -29,9 +33,34 @@ import (
 	"verifharness/internal/lp"
 )
 
+// captureStdout runs f with os.Stdout replaced by a pipe and returns what was written to it.
+func captureStdout(f func()) string {
+	old := os.Stdout
+	r, wp, err := os.Pipe()
+	if err != nil {
+		f()
+		return ""
+	}
+	os.Stdout = wp
+	done := make(chan string)
+	go func() {
+		b, _ := io.ReadAll(r)
+		done <- string(b)
+	}()
+	func() {
+		defer func() {
+			os.Stdout = old
+			wp.Close()
+		}()
+		f()
+	}()
+	return <-done
+}
+
 func main() {
 	st := c17core.New()
 	pl := pool.New(0, 0)
+	var obj *mux.Message // the message object of msgnew / msgpath / msgserve
 	// the server-side adapter around the router of the current case (st is re-read on every request)
 	adapter := mux.ToHandler[*udpClient.Conn](c17core.Handler(func() *c17core.State { return st }))
 	lp.Loop(func(f []string, w *bufio.Writer) {
@@ -47,9 +76,53 @@ func main() {
 		switch {
 		case f[0] == "reset" && len(f) == 1:
 			st = c17core.New()
+			obj = nil
 			fmt.Fprintln(w, "ok")
 		case st.Register(f, w):
-		case (f[0] == "serve" || f[0] == "served") && len(f) == 2:
+		case (f[0] == "msgnew" || f[0] == "msgpath") && len(f) == 2:
+			// one message object that is dispatched again and again: msgnew builds it (fresh RouteParams), msgpath only
+			// rewrites its Uri-Path options
+			want := ""
+			if f[1] != "none" {
+				want = c17core.Arg(f, 1)
+				if !strings.HasPrefix(want, "/") {
+					fmt.Fprintln(w, "bad-op")
+					return
+				}
+			}
+			if f[0] == "msgnew" {
+				m := pl.AcquireMessage(context.Background())
+				m.SetCode(codes.GET)
+				obj = &mux.Message{Message: m, RouteParams: new(mux.RouteParams)}
+			}
+			if obj == nil {
+				fmt.Fprintln(w, "bad-op")
+				return
+			}
+			c17core.SetPathExact(obj.Message, want)
+			if got, err := obj.Options().Path(); (err != nil && !(want == "" && errors.Is(err, message.ErrOptionNotFound))) || got != want {
+				fmt.Fprintf(w, "bad-path %q %v\n", got, err)
+				return
+			}
+			fmt.Fprintln(w, "ok")
+		case f[0] == "msgserve" && len(f) == 1:
+			if obj == nil {
+				fmt.Fprintln(w, "bad-op")
+				return
+			}
+			st.Begin()
+			st.R.ServeCOAP(&c17core.Writer{S: st, Req: obj}, obj)
+			fmt.Fprintln(w, st.Report())
+		case f[0] == "getroutes" && len(f) == 1:
+			fmt.Fprintln(w, st.Routes())
+		case f[0] == "getroute" && len(f) == 2:
+			rt := st.R.GetRoute(c17core.Arg(f, 1))
+			if rt == nil {
+				fmt.Fprintln(w, "route nil")
+				return
+			}
+			fmt.Fprintln(w, "route "+st.RouteFields(rt))
+		case (f[0] == "serve" || f[0] == "served" || f[0] == "servefail") && len(f) == 2:
 			// serve: through mux.ToHandler, the adapter every udp/tcp/dtls server uses (it builds the per-request
 			// mux.Message / RouteParams); served: Router.ServeCOAP called directly with a fresh mux.Message.
 			msg := pl.AcquireMessage(context.Background())
@@ -70,7 +143,34 @@ func main() {
 				return
 			}
 			st.Begin()
-			if f[0] == "served" {
+			if f[0] == "servefail" {
+				// a response writer that refuses SetResponse: the built-in NotFound responder reports that to Router.errors
+				// (the error handler NewRouter installs prints to os.Stdout: caught in a pipe and reported as `print`)
+				req := &mux.Message{Message: msg, RouteParams: new(mux.RouteParams)}
+				printed := captureStdout(func() {
+					defer func() {
+						if r := recover(); r != nil {
+							st.Begin()
+							fmt.Fprintln(w, c17core.PanicKind(r)+" errs=-")
+							req = nil
+						}
+					}()
+					st.R.ServeCOAP(&c17core.Writer{S: st, Req: req, Fail: true}, req)
+				})
+				if req == nil {
+					return
+				}
+				errs := st.Errs()
+				if strings.Contains(printed, "cannot set response") {
+					if errs == "-" {
+						errs = "print"
+					} else {
+						errs += ",print"
+					}
+				}
+				fmt.Fprintln(w, st.Report()+" errs="+errs)
+				return
+			} else if f[0] == "served" {
 				req := &mux.Message{Message: msg, RouteParams: new(mux.RouteParams)}
 				st.R.ServeCOAP(&c17core.Writer{S: st, Req: req}, req)
 			} else {
